@@ -46,6 +46,7 @@ def run(chk, repo):
     creation(chk, repo)
     counter_use(chk, repo)
     descriptors(chk, repo)
+    lock_keying(chk, repo)
     chk.doc("R15.11", "locks and counters are per master / per terminal")
     per_instance_rule(chk, repo, "R15.11", ["ebpfcat.ethercat.EtherCat",
                                             "ebpfcat.ethercat.Terminal",
@@ -57,6 +58,64 @@ def run(chk, repo):
     chk.doc("R15.9", "the shared counter file lives as long as any "
                      "participant (shared with C23)")
     c23.shared_files(chk, repo, "R15.9")
+
+
+def lock_keying(chk, repo):
+    """R15.12: the mailbox lock of a terminal is the lock of the address
+    the terminal answers at: wherever initialize() / gentle_initialize()
+    set self.position, they take the lock for that very address - on every
+    path, also when the object had a lock before (another address, another
+    counter slice in the shared lock file)"""
+    chk.doc("R15.12", "the lock is re-taken for the address in use")
+    T_ = "ebpfcat.ethercat.Terminal"
+    for meth in ("initialize", "gentle_initialize"):
+        f = repo.func(f"{T_}.{meth}")
+        chk.analysed(f"{T_}.{meth}")
+        cfg = CFG(f, raises="await")
+        rd = ReachingDefs(cfg)
+        pos = [n for n in cfg.nodes if n.kind == "stmt" and isinstance(
+            n.stmt, ast.Assign) and any(is_self_attr(t, "position")
+                                        for t in ast.walk(n.stmt)
+                                        if isinstance(t, ast.Attribute)
+                                        and isinstance(t.ctx, ast.Store))]
+        locks = [n for n in cfg.nodes if n.kind == "stmt" and match_stmt(
+            "self.mbx_lock = self.ec.get_mbx_lock($a)", n.stmt) is not None]
+        delegates = [n for n in cfg.nodes if n.kind == "return" and
+                     n.expr is not None and find("self.initialize($*a, $**k)",
+                                                 n.expr)]
+        if not delegates:
+            delegates = [n for n in cfg.nodes if n.kind == "return" and
+                         n.expr is not None and any(
+                             isinstance(c, ast.Call) and isinstance(
+                                 c.func, ast.Attribute) and c.func.attr ==
+                             "initialize" for c in walk_expr(n.expr))]
+        need(pos, f"{T_}.{meth}: no assignment of self.position")
+        ok = bool(locks)
+        why = "no `self.mbx_lock = self.ec.get_mbx_lock(...)`"
+        if ok:
+            # every path from the entry to a normal exit takes the lock (or
+            # hands over to initialize(), which does)
+            stop = locks + delegates
+            ok = cfg.must_pass(cfg.entry, lambda n: n in stop,
+                               targets=[cfg.exit])
+            why = ("a path through the method leaves the lock it had"
+                   if not ok else "taken on every path")
+            if ok:
+                for l in locks:
+                    a = match_stmt("self.mbx_lock = self.ec.get_mbx_lock($a)",
+                                   l.stmt)["a"]
+                    if unparse(a) not in ("self.position", "absolute"):
+                        ok, why = False, f"lock taken for `{unparse(a)}`"
+        path = None
+        if locks and not ok and "path" in why:
+            w = cfg.witness_path(cfg.entry, lambda n: n in locks + delegates,
+                                 targets=[cfg.exit])
+            path = cfg.describe_path(w) if w else None
+        chk.ob("R15.12", f"{T_}.{meth}", "the mailbox lock is taken for the "
+               "terminal's address on every path", ok, locks[0].stmt if locks
+               else f, why + ("" if ok else ": two users of the terminal "
+                              "then serialise on different locks and count "
+                              "in different slices"), path)
 
 
 def descriptors(chk, repo):
